@@ -772,6 +772,11 @@ func runC18Sched(f []string) string {
 			out = append(out, fmt.Sprintf("d=%s%d:%d:%s", q, lo, hi, c18errName(err)))
 		case (p[0] == "c" && len(p) == 1) || (p[0] == "e" && len(p) == 2):
 			ids := x.parkedIds()
+			if len(ids) > 0 {
+				// readers are parked: let store.close() take a few milliseconds, as closing a large backlog file does — a reader
+				// that is woken must find the backlog closed, however long the close takes
+				backlog.VerifC18SlowClose(x.bl, 4*time.Millisecond)
+			}
 			var err error
 			if p[0] == "c" {
 				err = x.bl.Close()
